@@ -8,7 +8,7 @@ vars == <<cvars, rt, pendClosed>>
 
 Init == CInit /\ rt = (IF Auto THEN "started" ELSE "idle") /\ pendClosed = 0
 
-Bound == attempt <= 3 /\ listed <= 4 /\ pendClosed <= 4
+Bound == attempt <= 3 /\ listed <= 4 /\ pendClosed <= 4 /\ orphans <= 4
 
 \* a routine starts exactly when connect() finds none registered
 Spawn == rt' = IF ~connecting /\ connecting' THEN "started" ELSE rt
